@@ -402,12 +402,21 @@ def rule_tf(ctx: Ctx, scope: Iterable[str], rule: str = "R-TF", only_callers: Op
             continue
         for call in calls_in(fi.node):
             cands, kind = ctx.resolver.resolve_call(call, fi)
+            recv = None
+            if (kind not in ("unique", "cha") or not cands) and isinstance(call.func, ast.Name) and any(a.arg == call.func.id for a in fi.node.args.args):
+                # a callable parameter (e.g. the matching class handed to _get_score_table)
+                classes = rel._callable_param_classes(fi, call.func.id)
+                inits = [(k, k.find_method("__init__")) for k in classes]
+                inits = [(k, m) for k, m in inits if m is not None and rel.of(m, k) == "yes"]
+                if inits:
+                    cands, kind, recv = [inits[0][1]], "unique", inits[0][0]
             if kind not in ("unique", "cha") or not cands:
                 continue
             with_param = [c for c in cands if any(a.arg == "transforms" for a in c.node.args.args + c.node.args.kwonlyargs)]
             if not with_param:
                 continue
-            recv = ctx.resolver.receiver_class(call, fi)
+            if recv is None:
+                recv = ctx.resolver.receiver_class(call, fi)
             verdicts = []
             splat_unknown = False
             for c in with_param:
